@@ -62,6 +62,7 @@ def gen_profile(rng, small=False):
     """Random well-formed profile spec (see harness/impl/C07.py)."""
     services, h = [], 1 + (rng.randrange(3) if rng.random() < 0.2 else 0)
     nsvc = rng.randrange(1, 3 if small else 5)
+    used = []      # 16-bit characteristic UUIDs already used (in this or an earlier service)
     for si in range(nsvc):
         svc = {"kind": "primary" if rng.random() < 0.75 else "secondary", "handle": h,
                "uuid": rand_uuid(rng, U16_SVC).hex(), "includes": [], "chars": []}
@@ -74,7 +75,13 @@ def gen_profile(rng, small=False):
             h += 1
         for _ in range(rng.randrange(0, 3 if small else 5)):
             props = rng.choice(PROPS)
-            ch = {"handle": h, "uuid": rand_uuid(rng, U16_CHR).hex(), "props": props,
+            cu = rand_uuid(rng, U16_CHR).hex()
+            if used and rng.random() < 0.3:
+                # the SAME characteristic UUID again (legal, e.g. HID Report), other properties / security / value
+                cu = rng.choice(used)
+            if len(cu) == 4:
+                used.append(cu)
+            ch = {"handle": h, "uuid": cu, "props": props,
                   "sec": rng.choice(SECS), "value": rand_bytes(rng, rand_vlen(rng)).hex(), "descs": []}
             h += 2
             last = h - 1
@@ -100,7 +107,25 @@ def gen_profile(rng, small=False):
             svc["end"] = 0xFFFF
         services.append(svc)
         h = last + 1 + (rng.randrange(1, 4) if rng.random() < 0.25 else 0)
-    return {"services": services}
+    spec = {"services": services}
+    if rng.random() < 0.5:
+        # the order in which the profile is BUILT (= insertion order of its attribute dictionary) differs from the
+        # handle order: services added out of order, characteristics of a service added out of order
+        order = list(range(len(services)))
+        rng.shuffle(order)
+        spec["build"] = {"services": order,
+                         "chars": [rng.sample(range(len(sv["chars"])), len(sv["chars"])) if rng.random() < 0.5
+                                   else list(range(len(sv["chars"]))) for sv in services]}
+    return spec
+
+
+def dup_uuid_rows(rows):
+    """characteristic value rows whose 16-bit UUID is used by more than one characteristic"""
+    by = {}
+    for r in rows:
+        if r["kind"] == "KValue" and len(r["type"]) == 2:
+            by.setdefault(r["type"], []).append(r)
+    return [r for rs in by.values() if len(rs) > 1 for r in rs]
 
 
 def flatten(spec):
@@ -376,6 +401,13 @@ class HistoryGen:
             ty = rng.choice([0x2800, 0x2800, 0x2801, 0x2802, 0x2803, 0x2803, 0x2902, 0x2901] +
                             [struct.unpack("<H", r["type"])[0] for r in self.rows if len(r["type"]) == 2][:40])
             v = self.some_value() if rng.random() < 0.7 else rand_bytes(rng, rng.randrange(0, 5))
+            dups = dup_uuid_rows(self.rows)
+            if dups and rng.random() < 0.35:
+                # select by a characteristic UUID that several characteristics share, with the value of one of them
+                d = rng.choice(dups)
+                ty, v = struct.unpack("<H", d["type"])[0], d["value"]
+                if rng.random() < 0.6:
+                    s, e = 1, 0xFFFF
             return ("FindByTypeValue", s, e, ty, v[:max(0, m - 7)])
         if k < 31:
             s, e = self.range()
